@@ -11,7 +11,7 @@ CLAIMS = {
             "element writes, all From<Vec> shapes) is executed on the real CVec in lock-step with a Vec reference model, for seven element "
             "types (incl. zero-sized with destructor, heap-owning, and one whose Clone is not a bitwise copy), over an allocator that always relocates on growth and over one that grows in place inside a size class; contents, length, capacity, panics, per-element drop counts, allocator balance/layout/red zones and the calls made "
             "through the stored reserve_fn/drop_fn are compared after every step. Full enumeration (no state merging) plus a deeper BFS "
-            "with canonical-state deduplication.",
+            "with canonical-state deduplication. The alphabet includes clone_from into shorter / longer vectors and conversion from vectors with KiB of spare capacity.",
             "DESIGN.md §4 C11",
             "Vec is the reference model; bounded depth and length; no random long sequences.",
             "explicit-state exploration of the real code (exhaustive operation histories vs. reference model)",
@@ -67,7 +67,7 @@ CLAIMS = {
             "the REAL cglue-bindgen binary (stub cbindgen on PATH) and every generated wrapper is called from a generated mock translation unit "
             "compiled with gcc/g++; each call must reach exactly its vtable slot with the container and the same arguments, return the slot's "
             "result, and consuming wrappers / drop helpers must release instance and context exactly once while holding a context clone across the call (every context clone is a distinct handle in the mock, so a double release is seen even next to a leak). "
-            "Ten confirmed tool defects are recorded as known findings; causes that depend on unverifiable details of cbindgen's C++ output are recorded, not judged. Group and trait names built from the generator's own words (Container, Vtbl, CGlue) are part of the model space.",
+            "Ten confirmed tool defects are recorded as known findings; causes that depend on unverifiable details of cbindgen's C++ output are recorded, not judged. Group and trait names built from the generator's own words (Container, Vtbl, CGlue) are part of the model space. Header models include over-long function-pointer fields laid out one argument per line; the C release / clone helpers are driven on every state of the published box and arc fields.",
             "DESIGN.md §4 C17, §5.6",
             "No cbindgen offline: the synthesiser (gen/bindgen_headers.py) is a model of cbindgen 0.20 validated against the published example headers.",
             "exhaustive enumeration of a bounded header grammar through the real tool, executed against mock vtables",
@@ -98,7 +98,7 @@ CLAIMS = {
             "child), check/as_ref/as_mut/cast/into for every subset of the optional traits (failing casts included), clone, upcast, drop} on a "
             "pool of objects is re-executed on the real generated code in lock-step with a model of live payload ids; after every step each "
             "payload's drop count must be 0 while its owner lives and exactly 1 afterwards; teardown checks every id and the allocator "
-            "(layout-checked frees, quarantine, red zones, leaks). Full enumeration plus BFS with canonical-state dedup.",
+            "(layout-checked frees, quarantine, red zones, leaks). Full enumeration plus BFS with canonical-state dedup. The same harness is also built against cglue with the rust_void feature (the erased instance type is zero-sized without a destructor).",
             "DESIGN.md §4 C06",
             "Hand-written structure members (one node trait with five wrapped associated types, one group family); bounded depth/pool. "
             "By-reference containers and all generated shapes are covered for drop counts by the C01 harness.",
@@ -168,7 +168,7 @@ CLAIMS = {
             "Exhaustive input enumeration: every sub-slice (offset x length) of a backing buffer for four element types through every "
             "conversion and write path of CSliceRef/CSliceMut; every byte string up to a length bound over an alphabet of UTF-8 boundary "
             "bytes for the &str decision against core::str::from_utf8; every variant of COption/CResult/CTup1-4 with drop-counting, zero-sized "
-            "and extreme payloads.",
+            "and extreme payloads. After a CSliceMut re-borrow the original view is checked as well.",
             "DESIGN.md §4 C12",
             "from_utf8 is the reference; lengths above the bound not covered.",
             "exhaustive enumeration of a bounded input domain on the real code",
@@ -188,7 +188,7 @@ CLAIMS = {
     "C14": ("exploration",
             "Every string of up to L symbols over {NUL, a, b, 2-byte, 3-byte sequence} through From<&str>, From<String> (exact capacity and 1 / 7 / 64 bytes of spare capacity), From<&[u8]>; the raw "
             "buffer is inspected through the tracking allocator (one block holding the prefix and then its one NUL), all value-semantics "
-            "methods are compared with the expected prefix, and the allocation must be freed once with its allocated size.",
+            "methods are compared with the expected prefix, and the allocation must be freed once with its allocated size. Every input is also placed so that it ends at / starts after an unreadable page: a conversion that reads outside its input kills the process, which is attributed to the case.",
             "DESIGN.md §4 C14",
             "Inputs longer than the bound not covered; invalid UTF-8 byte slices are outside the property's quantifier.",
             "exhaustive enumeration of a bounded input domain on the real code, crash-isolated",
@@ -198,7 +198,7 @@ CLAIMS = {
             "feed_into / feed_into_mut / extend from a lazy source passed by_ref (the source must be advanced by exactly the offered items). A second step drives the callback / iterator helpers that the real "
             "cglue-bindgen writes into a C header (dynamic and static collectors, counter, buffer iterator) from C for every item count up to a bound. Iterators: for every source "
             "iterator shape and length, every operation sequence up to a depth over {next through each wrapper constructor, two nexts on one "
-            "wrapper, next on the source directly, wrap-and-release} is executed from scratch and compared step by step with a model of the source.",
+            "wrapper, next on the source directly, wrap-and-release} is executed from scratch and compared step by step with a model of the source. The C helper macros written into C headers are driven from C (gcc and clang, -O0 / -O2) for every item count, including buffers whose expression has another static type.",
             "DESIGN.md §4 C15",
             "Bounded lengths/depths.",
             "explicit-state exploration of the real code (all operation sequences up to a depth vs. reference model)",
@@ -211,7 +211,7 @@ CLAIMS = {
             "published layout with that module's functions; the opaque words must not be interpreted locally), is executed on the real code; after every step "
             "the caller's wake count must equal the wake operations and its refcount must never go below the start value and return to it when "
             "no foreign waker is left; it is never used after its last release and never released while a foreign waker lives. Concurrent half: loom explores all interleavings of 2-3 threads operating on foreign wakers over the real "
-            "task/mod.rs compiled against a loom-backed tarc::BaseArc. Stream and Sink::poll_flush are also polled in Ready mode (a wake made during a poll that returns Ready must reach the caller).",
+            "task/mod.rs compiled against a loom-backed tarc::BaseArc. Stream and Sink::poll_flush are also polled in Ready mode (a wake made during a poll that returns Ready must reach the caller). One poll through the object must enter the implementor's method of the same name exactly once; wakes from destructors run by unwinding and re-entrant release chains are part of the alphabet / sections.",
             "DESIGN.md §4 C19",
             "Thread hand-off at operation granularity in the history half; loom's model + the tarc shim in the concurrent half; bounded depth.",
             "explicit-state exploration of the real code + loom (DPOR over all interleavings within a preemption bound)",
@@ -279,6 +279,9 @@ def main():
             {"name": "h_objects", "path": "/verif/engine/h_objects", "serves_properties": ["C01", "C02", "C04", "C08", "C13"], "kind_free_text": "generated-program harness: gen/objects_gen.py + gen/groups_gen.py emit shard crates under engine/h_objects/shards (regenerated on every run), h_objbase holds the differential harness"},
             {"name": "sendsync_c09", "path": "/verif/gen/sendsync_c09.py", "serves_properties": ["C09"], "kind_free_text": "probe-crate generator + per-cell rustc runs"},
             {"name": "h_layout", "path": "/verif/engine_layout", "serves_properties": ["C20"], "kind_free_text": "separate cargo workspace (layout_checks / abi_stable); gen/layout_gen.py emits twin modules"},
+            {"name": "castprobe_c08", "path": "/verif/gen/castprobe_c08.py", "serves_properties": ["C08"], "kind_free_text": "compile probes (one rustc run per cell, rig of sendsync_c09) for groups with built-in traits in the mandatory list"},
+            {"name": "life_void_c06", "path": "/verif/engine_void", "serves_properties": ["C06"], "kind_free_text": "separate cargo workspace: the h_life sources built against cglue with the rust_void feature (gen/life_void_c06.py)"},
+            {"name": "bindgen_helpers", "path": "/verif/gen/bindgen_cpp_c16.py", "serves_properties": ["C15", "C16", "C17"], "kind_free_text": "C / C++ drivers over what the real cglue-bindgen writes into headers: helper macros (bindgen_c15.py), release / clone helpers (bindgen_chelpers.py), C++ runtime-type templates (bindgen_cpp_c16.py); gcc, clang, g++, clang++"},
             {"name": "h_life", "path": "/verif/engine/h_life", "serves_properties": ["C06", "C07"], "kind_free_text": "lifecycle history explorer over a tree of generated objects sharing one context"},
             {"name": "expander", "path": "/verif/engine/expander", "serves_properties": ["C03", "C04"], "kind_free_text": "drives cglue_gen as a library: expansion printer + layout signature"},
             {"name": "xmod", "path": "/verif/engine_xmod", "serves_properties": ["C05"], "kind_free_text": "separate cargo workspace: xapi (shared interface + tagging allocator), xplugin, xplugin_so (cdylib), xhost (loader + history explorer)"},
